@@ -29,6 +29,10 @@ CHECKS = {
    technique="TLC model checking of spec/CacheView.tla (object cache with typed downcast/fallback and error entries, stream cache with caller-supplied filter subsets; invariant Answer = Uncached) + replay of all short call sequences under all four cache configurations",
    text="TLC checks on the full reachable graph (<=5 calls) that in the intended design every answer equals the uncached answer in all four cache configurations and refutes the two deviations; all call sequences of length 3/4 are executed against the real File API with real SyncCache/NoCache combinations and compared call by call with a lone uncached run.",
    note="One generated document; the stream-cache finding is predicted by the as-built model and suppressed only where the observation equals the prediction."),
+ "C11": dict(level="model_checking", design="5/C11", engine="A:objstm",
+   technique="TLC model checking of spec/ObjStm.tla (header offsets, member slicing, top-level parse of a slice, indirect /Length; TwinEqual, SliceExact) + replay of every storage configuration as a file with twin objects",
+   text="TLC enumerates every storage configuration within the bound and checks that the reader's slice is exactly the member and that the compressed twin equals the direct twin; three deviations refuted; each configuration is written as a real file (object stream with optional filters, header separator variants, trailing white-space) and resolved through the library, values compared structurally with the directly stored twin, stream data compared for direct/indirect/compressed /Length.",
+   note="Bounded containers and one representative text per value kind; trusted: TLC, mkpdf."),
 }
 
 def main():
